@@ -409,6 +409,15 @@ Definition find_hash {A} (path vers : bytes) (k : bytes -> prog A) : prog A :=
         k (info_short O (match find_file info_entry a with Some data => data | None => [] end))
     end).
 
+(* a stored version answers for the requested commit hash when its own hash (the suffix of a
+   pseudo-version, or the Short field of .info) is a prefix of the request or the other way round.
+   CORRECTED BEHAVIOUR: a version without hash (no .info, no Short field) matches nothing; the
+   code tested only the two HasPrefix, and strings.HasPrefix(vers, "") holds for every request
+   (defect reported for C20, see corpus/C20/empty-short-matches-any-hash.json). *)
+Definition hash_matches (hash vers : bytes) : bool :=
+  negb (match hash with [] => true | _ => false end) &&
+  (has_prefix vers hash || has_prefix hash vers).
+
 (* the loop "for _, m := range srv.modList" of the allHex branch; [best] is the loop variable *)
 Fixpoint resolve {A} (ml : list (bytes * bytes)) (path vers best : bytes) (k : bytes -> prog A) : prog A :=
   match ml with
@@ -416,7 +425,7 @@ Fixpoint resolve {A} (ml : list (bytes * bytes)) (path vers best : bytes) (k : b
   | (p, v) :: r =>
       if bytes_eqb p path && semver_lt O best v then
         let cont := fun hash : bytes =>
-          if has_prefix vers hash || has_prefix hash vers
+          if hash_matches hash vers
           then resolve r path vers v k
           else resolve r path vers best k in
         if is_pseudo v then cont (after_last hash_sep v) else find_hash p v cont
